@@ -199,7 +199,14 @@ def run_chunk(prop_id, seeds, tier, collect_digests=False, nsamples=2):
     agg = {"runs": 0, "ok": 0, "skip": 0, "probes": Counter(), "faults": Counter(), "steps": 0,
            "nontrivial": 0, "nt_digests": set(), "all_digests": set(), "violations": [], "harness_errors": [],
            "samples": [], "digests": [], "profiles": Counter()}
+    junk_level = int(os.environ.get("VERIF_JUNK", "0") or 0)
+    junk = []
     for seed in seeds:
+        if junk_level:
+            # determinism self-test: perturb the heap between runs (identity hashes / allocation addresses must not matter)
+            junk.append([object() for _ in range(137 * junk_level + (seed % 97))])
+            if len(junk) > 5:
+                junk.pop(0)
         r = execute(prop, seed, tier, want_sample=len(agg["samples"]) < nsamples)
         agg["runs"] += 1
         agg["probes"].update(r["probes"])
